@@ -3,7 +3,11 @@ package main
 import (
 	"fmt"
 	"go/token"
+	"go/types"
+	"sort"
 	"strings"
+
+	"golang.org/x/tools/go/ssa"
 )
 
 // Lock protocol.
@@ -62,6 +66,10 @@ func (ex *Exec) lockEntry(spec *FuncSpec, ev *Eval) {
 		}
 	}
 	ex.heldEntry = held
+	if ex.vc.conc {
+		ex.set(ex.curState, "WROTE", "Bool", "false")
+		ex.set(ex.curState, "SECW", "Bool", "false")
+	}
 }
 
 // useHeld: the entry fact about HELD is only emitted in functions that touch a lock at all (a constant-array
@@ -83,7 +91,7 @@ func (ex *Exec) lockExit(spec *FuncSpec, st *State, exitReach string) {
 	if _, used := st.m["HELD"]; !used {
 		return
 	}
-	ex.vc.oblige("lock.balanced", "lock", ex.fn.Pos(), exitReach, sEq(ex.get(st, "HELD", "(Array Int Int)"), ex.get(ex.entry, "HELD", "(Array Int Int)")),
+	ex.vc.oblige("lock.balanced", "lock", ex.fn.Pos(), exitReach, sEq(ex.get(st, "HELD", "(Array Int Int)"), ex.get(newState(), "HELD", "(Array Int Int)")),
 		"every lock taken is released on every path, and nothing the caller holds is released")
 }
 
@@ -111,10 +119,620 @@ func (ex *Exec) lockCallProtocol(spec *FuncSpec, ev *Eval, pos token.Pos, name s
 	}
 }
 
-// Permission checks for lock-guarded state (concurrent mode).
+// ---------------------------------------------------------------- concurrent mode
+//
+// `guards pkg.Type.mu : f, elems(f), map(f)` declares which fields of an object (and which backing arrays / maps
+// reached through them) may only be touched while that object's mutex is held: shared for reads, exclusive for
+// writes. Objects created during the call are local until published and need no lock. At every acquisition the
+// guarded state of the objects behind that mutex is havocked down to the type's `lockinv` (another goroutine
+// may have run), `old()` is re-bound to that state, and at every release the invariant is an obligation. A
+// proof done under this regime holds for every interleaving of the callers.
 
-func (ex *Exec) permCheck(compKey, ref string, write bool)        {}
-func (ex *Exec) permCheckElem(compKey, arr string, write bool)    {}
-func (ex *Exec) permCheckMap(mk mapKeys, m string, write bool)    {}
-func (ex *Exec) afterAcquire(mu string, mode int, pos token.Pos)  {}
-func (ex *Exec) beforeRelease(mu string, mode int, pos token.Pos) {}
+type guardedType struct {
+	key     string // pkg.Type
+	named   *types.Named
+	st      *types.Struct
+	muIdx   int
+	muIsPtr bool
+	fields  map[int]bool // guarded scalar fields (by index)
+	elems   map[int]bool // fields whose backing array is guarded
+	maps    map[int]bool // fields whose map contents are guarded
+}
+
+func (w *World) lookupNamed(key string) *types.Named {
+	k := strings.Index(key, ".")
+	if k < 0 {
+		return nil
+	}
+	for _, p := range w.Pkgs {
+		if p.Types != nil && p.Types.Name() == key[:k] && strings.HasPrefix(p.PkgPath, modulePath) {
+			if tn, ok := p.Types.Scope().Lookup(key[k+1:]).(*types.TypeName); ok {
+				if n, ok := tn.Type().(*types.Named); ok {
+					return n
+				}
+			}
+		}
+	}
+	return nil
+}
+
+func (vc *VC) guardTable() map[string]*guardedType {
+	if vc.guardTab != nil {
+		return vc.guardTab
+	}
+	vc.guardTab = map[string]*guardedType{}
+	for _, g := range vc.w.Contracts.Guards {
+		k := strings.LastIndex(g.Mutex, ".")
+		if k < 0 {
+			vc.errorf("%s: guards needs pkg.Type.mutexfield", g.Src)
+			continue
+		}
+		tkey, mf := g.Mutex[:k], g.Mutex[k+1:]
+		n := vc.w.lookupNamed(tkey)
+		if n == nil {
+			vc.errorf("%s: unknown type %s", g.Src, tkey)
+			continue
+		}
+		st, _ := n.Underlying().(*types.Struct)
+		if st == nil {
+			continue
+		}
+		gt := &guardedType{key: tkey, named: n, st: st, muIdx: -1, fields: map[int]bool{}, elems: map[int]bool{}, maps: map[int]bool{}}
+		idx := func(name string) int {
+			for i := 0; i < st.NumFields(); i++ {
+				if st.Field(i).Name() == name {
+					return i
+				}
+			}
+			return -1
+		}
+		gt.muIdx = idx(mf)
+		if gt.muIdx < 0 {
+			vc.errorf("%s: no field %s in %s", g.Src, mf, tkey)
+			continue
+		}
+		_, gt.muIsPtr = st.Field(gt.muIdx).Type().Underlying().(*types.Pointer)
+		for _, l := range g.Locs {
+			switch {
+			case strings.HasPrefix(l, "elems(") && strings.HasSuffix(l, ")"):
+				if i := idx(l[6 : len(l)-1]); i >= 0 {
+					gt.elems[i] = true
+				}
+			case strings.HasPrefix(l, "map(") && strings.HasSuffix(l, ")"):
+				if i := idx(l[4 : len(l)-1]); i >= 0 {
+					gt.maps[i] = true
+				}
+			default:
+				if i := idx(l); i >= 0 {
+					gt.fields[i] = true
+				} else {
+					vc.errorf("%s: no field %s in %s", g.Src, l, tkey)
+				}
+			}
+		}
+		vc.guardTab[tkey] = gt
+	}
+	return vc.guardTab
+}
+
+// muOf: the address of the mutex guarding object o of guarded type gt (in state st).
+func (ex *Exec) muOf(gt *guardedType, o string, st *State) string {
+	if !gt.muIsPtr {
+		return fmt.Sprintf("(sub %s %d)", o, gt.muIdx)
+	}
+	k, srt, _ := ex.fieldKey(gt.named, gt.st, gt.muIdx)
+	return sSel(ex.get(st, k, "(Array Int "+srt+")"), o)
+}
+
+func (ex *Exec) topExec() *Exec {
+	t := ex
+	for t.parent != nil {
+		t = t.parent
+	}
+	return t
+}
+
+// localObj: o was allocated during this call (not yet visible to other goroutines).
+func (ex *Exec) localObj(o string) string {
+	return sNot(sSel("c0_alloc", "(rootOf "+o+")"))
+}
+
+func (ex *Exec) heldAt(mu string) string {
+	ex.useHeld()
+	return sSel(ex.get(ex.curState, "HELD", "(Array Int Int)"), mu)
+}
+
+// owners: the objects of guarded type gt this activation can name (receiver, parameters, values computed so far).
+func (ex *Exec) owners(gt *guardedType) []string {
+	seen := map[string]bool{}
+	var out []string
+	add := func(v ssa.Value, val Val) {
+		if val.T == "" {
+			return
+		}
+		pt, ok := ex.typ(v.Type()).Underlying().(*types.Pointer)
+		if !ok {
+			return
+		}
+		n, _ := types.Unalias(pt.Elem()).(*types.Named)
+		if n == nil || namedKey(n) != gt.key {
+			return
+		}
+		if !seen[val.T] {
+			seen[val.T] = true
+			out = append(out, val.T)
+		}
+	}
+	for e := ex; e != nil; e = e.parent {
+		for v, val := range e.vals {
+			add(v, val)
+		}
+	}
+	sort.Strings(out)
+	return out
+}
+
+func (ex *Exec) permNeed(mu string, write bool) string {
+	if write {
+		return sEq(ex.heldAt(mu), "2")
+	}
+	return "(>= " + ex.heldAt(mu) + " 1)"
+}
+
+func (ex *Exec) notePerm() {
+	ex.vc.assumptions["lock discipline => data-race freedom: every access to guarded state happens with the guarding mutex held in a sufficient mode (Go memory model, sync.RWMutex semantics); objects of one guarded type do not share backing arrays or maps (encapsulation)"] = true
+}
+
+func (ex *Exec) permCheck(compKey, ref string, write bool) {
+	if !ex.vc.conc || ex.vc.scratch || ex.vc.discover {
+		return
+	}
+	for _, gt := range ex.vc.guardTable() {
+		for fi := range gt.fields {
+			k, _, _ := ex.fieldKey(gt.named, gt.st, fi)
+			if k != compKey {
+				continue
+			}
+			ex.notePerm()
+			kind := "perm.read"
+			if write {
+				kind = "perm.write"
+				ex.noteGuardedWrite()
+			}
+			ex.vc.oblige(fmt.Sprintf("%s[%s.%s]", kind, gt.key, fieldName(gt.st, fi)), "perm", ex.curPos(), ex.curReach,
+				sOr(ex.localObj(ref), ex.permNeed(ex.muOf(gt, ref, ex.curState), write)),
+				fmt.Sprintf("access to %s.%s needs the object's mutex (%s)", gt.key, fieldName(gt.st, fi), map[bool]string{true: "exclusive", false: "shared"}[write]))
+		}
+	}
+}
+
+func (ex *Exec) curPos() token.Pos {
+	if ex.curBlock != nil && ex.curIdx < len(ex.curBlock.Instrs) {
+		return ex.curBlock.Instrs[ex.curIdx].Pos()
+	}
+	return ex.fn.Pos()
+}
+
+func (ex *Exec) permCheckElem(compKey, arr string, write bool) {
+	if !ex.vc.conc || ex.vc.scratch || ex.vc.discover {
+		return
+	}
+	for _, tk := range sortedGuardKeys(ex.vc.guardTable()) {
+		gt := ex.vc.guardTable()[tk]
+		for fi := range gt.elems {
+			sl, ok := gt.st.Field(fi).Type().Underlying().(*types.Slice)
+			if !ok {
+				continue
+			}
+			k, _ := ex.elemKey(ex.typ(sl.Elem()))
+			if sl2, ok2 := ex.instField(gt, fi).Underlying().(*types.Slice); ok2 {
+				k, _ = ex.elemKey(sl2.Elem())
+			}
+			if k != compKey {
+				continue
+			}
+			var cs []string
+			fk, fs, _ := ex.fieldKeyInst(gt, fi)
+			// a slice the caller passed in is the caller's: it does not alias a container's guarded array (encapsulation)
+			callerOwned := "false"
+			if top := ex.topExec(); !write {
+				var ps []string
+				for _, p := range top.fn.Params {
+					if _, ok := top.typ(p.Type()).Underlying().(*types.Slice); ok {
+						ps = append(ps, sEq(arr, "(sarr "+top.vals[p].T+")"))
+					}
+				}
+				callerOwned = sOr(ps...)
+			}
+			for _, o := range ex.owners(gt) {
+				own := sEq(arr, "(sarr "+sSel(ex.get(ex.curState, fk, "(Array Int "+fs+")"), o)+")")
+				cs = append(cs, sImp(sAnd(own, sNot(sEq(arr, "0")), sNot(ex.localObj(o)), sNot(callerOwned)), ex.permNeed(ex.muOf(gt, o, ex.curState), write)))
+			}
+			if len(cs) == 0 {
+				continue
+			}
+			ex.notePerm()
+			kind := "perm.read"
+			if write {
+				kind = "perm.write"
+				ex.noteGuardedWrite()
+			}
+			ex.vc.oblige(fmt.Sprintf("%s[elems %s.%s]", kind, gt.key, fieldName(gt.st, fi)), "perm", ex.curPos(), ex.curReach, sAnd(cs...),
+				fmt.Sprintf("access to the backing array of %s.%s needs the owner's mutex", gt.key, fieldName(gt.st, fi)))
+		}
+	}
+}
+
+func (ex *Exec) permCheckMap(mk mapKeys, m string, write bool) {
+	if !ex.vc.conc || ex.vc.scratch || ex.vc.discover {
+		return
+	}
+	for _, tk := range sortedGuardKeys(ex.vc.guardTable()) {
+		gt := ex.vc.guardTable()[tk]
+		for fi := range gt.maps {
+			mt, ok := ex.instField(gt, fi).Underlying().(*types.Map)
+			if !ok || ex.mapComps(mt).dom != mk.dom {
+				continue
+			}
+			var cs []string
+			fk, fs, _ := ex.fieldKeyInst(gt, fi)
+			for _, o := range ex.owners(gt) {
+				own := sEq(m, sSel(ex.get(ex.curState, fk, "(Array Int "+fs+")"), o))
+				cs = append(cs, sImp(sAnd(own, sNot(sEq(m, "0")), sNot(ex.localObj(o))), ex.permNeed(ex.muOf(gt, o, ex.curState), write)))
+			}
+			if len(cs) == 0 {
+				continue
+			}
+			ex.notePerm()
+			kind := "perm.read"
+			if write {
+				kind = "perm.write"
+				ex.noteGuardedWrite()
+			}
+			ex.vc.oblige(fmt.Sprintf("%s[map %s.%s]", kind, gt.key, fieldName(gt.st, fi)), "perm", ex.curPos(), ex.curReach, sAnd(cs...),
+				fmt.Sprintf("access to the map %s.%s needs the owner's mutex", gt.key, fieldName(gt.st, fi)))
+		}
+	}
+}
+
+func sortedGuardKeys(m map[string]*guardedType) []string {
+	var ks []string
+	for k := range m {
+		ks = append(ks, k)
+	}
+	sort.Strings(ks)
+	return ks
+}
+
+// instField: the type of field fi of the guarded type as instantiated in the function under verification
+// (type parameters of the named type mapped to the like-named type parameters in scope).
+func (ex *Exec) instField(gt *guardedType, fi int) types.Type {
+	ev := ex.topExec().newEval(ex.curState, ex.curState)
+	if _, st := structOf(ev.instNamed(gt.named)); st != nil && fi < st.NumFields() {
+		return st.Field(fi).Type()
+	}
+	return gt.st.Field(fi).Type()
+}
+
+func (ex *Exec) fieldKeyInst(gt *guardedType, fi int) (string, string, types.Type) {
+	ev := ex.topExec().newEval(ex.curState, ex.curState)
+	if n, st := structOf(ev.instNamed(gt.named)); st != nil {
+		return ex.fieldKey(n, st, fi)
+	}
+	return ex.fieldKey(gt.named, gt.st, fi)
+}
+
+func (ex *Exec) noteGuardedWrite() {
+	st := ex.curState
+	ex.set(st, "SECW", "Bool", "true")
+}
+
+// afterAcquire: another goroutine may have changed everything this mutex guards.
+func (ex *Exec) afterAcquire(mu string, mode int, pos token.Pos) {
+	if !ex.vc.conc || ex.vc.scratch {
+		return
+	}
+	ex.concEnterSection(mu, pos, true)
+}
+
+func (ex *Exec) concEnterSection(mu string, pos token.Pos, rebind bool) {
+	vc := ex.vc
+	st := ex.curState
+	ex.set(st, "SECTION", "Int", "(+ "+ex.get(st, "SECTION", "Int")+" 1)")
+	top := ex.topExec()
+	if vc.spec == nil || vc.spec.Opts["multi-section"] == "" {
+		vc.oblige("lp.single-writer", "lp", pos, ex.curReach, sOr(ex.localObj(mu), sNot(ex.get(st, "WROTE", "Bool"))),
+			"no earlier critical section of this call wrote guarded state (the operation takes effect in one section)")
+	}
+	for _, tk := range sortedGuardKeys(vc.guardTable()) {
+		gt := vc.guardTable()[tk]
+		if tk != ex.curMuOwner {
+			continue // this mutex is not the mutex field of that type
+		}
+		owners := ex.owners(gt)
+		if !gt.muIsPtr {
+			// the object the mutex is embedded in is an owner even if this activation has not named it yet
+			o := "(subOf " + mu + ")"
+			dup := false
+			for _, x := range owners {
+				if x == o {
+					dup = true
+				}
+			}
+			if !dup {
+				owners = append(owners, o)
+			}
+		}
+		all := map[int]bool{}
+		for fi := range gt.fields {
+			all[fi] = true
+		}
+		for fi := range gt.elems {
+			all[fi] = true
+		}
+		for fi := range gt.maps {
+			all[fi] = true
+		}
+		var fis []int
+		for fi := range all {
+			fis = append(fis, fi)
+		}
+		sort.Ints(fis)
+		for _, fi := range fis {
+			if !gt.fields[fi] {
+				continue
+			}
+			k, srt, _ := ex.fieldKeyInst(gt, fi)
+			as := "(Array Int " + srt + ")"
+			cur := ex.get(st, k, as)
+			h := vc.fresh("acq_"+k, as)
+			// only objects behind this mutex (and not local to this call) change
+			vc.assume(fmt.Sprintf("(forall ((r Int)) (! (=> (or (not (= %s %s)) (not (select c0_alloc (rootOf r)))) (= (select %s r) (select %s r))) :pattern ((select %s r))))",
+				ex.muOf(gt, "r", st), mu, h, cur, h))
+			ex.set(st, k, as, h)
+			if f := memInv(k, as, h, ex.get(st, "alloc", "(Array Int Bool)")); f != "" {
+				vc.assume(f)
+			}
+		}
+		for _, o := range owners {
+			behind := sAnd(sEq(ex.muOf(gt, o, st), mu), sNot(ex.localObj(o)))
+			for _, fi := range fis {
+				fk, fs, _ := ex.fieldKeyInst(gt, fi)
+				fv := sSel(ex.get(st, fk, "(Array Int "+fs+")"), o)
+				if gt.elems[fi] {
+					if sl, ok := ex.instField(gt, fi).Underlying().(*types.Slice); ok {
+						ek, es := ex.elemKey(sl.Elem())
+						as := "(Array Int (Array Int " + es + "))"
+						cur := ex.get(st, ek, as)
+						fresh := vc.fresh("acq_"+ek, "(Array Int "+es+")")
+						nv := vc.fresh("acq_"+ek, as)
+						vc.assume(sEq(nv, sIte(sAnd(behind, sNot(sEq("(sarr "+fv+")", "0"))), sSto(cur, "(sarr "+fv+")", fresh), cur)))
+						ex.set(st, ek, as, nv)
+						if f := memInv(ek, as, nv, ex.get(st, "alloc", "(Array Int Bool)")); f != "" {
+							vc.assume(f)
+						}
+					}
+				}
+				if gt.maps[fi] {
+					if mt, ok := ex.instField(gt, fi).Underlying().(*types.Map); ok {
+						mk := ex.mapComps(mt)
+						for _, c := range [][2]string{{mk.dom, mk.domS}, {mk.val, mk.valS}, {mk.card, "(Array Int Int)"}} {
+							cur := ex.get(st, c[0], c[1])
+							fresh := vc.fresh("acq_"+c[0], c[1])
+							nv := vc.fresh("acq_"+c[0], c[1])
+							vc.assume(sEq(nv, sIte(sAnd(behind, sNot(sEq(fv, "0"))), sSto(cur, fv, sSel(fresh, fv)), cur)))
+							ex.set(st, c[0], c[1], nv)
+							if f := memInv(c[0], c[1], nv, ex.get(st, "alloc", "(Array Int Bool)")); f != "" {
+								vc.assume(f)
+							}
+						}
+					}
+				}
+			}
+		}
+		// the type's lock invariant holds for every object behind the mutex
+		if inv := vc.w.Contracts.LockInvs[gt.key]; inv != nil {
+			for _, o := range owners {
+				ev := top.newEval(st, st)
+				ev.pkg = gt.named.Obj().Pkg()
+				ev.vars["self"] = TV{T: o, Ty: goVT(types.NewPointer(ev.instNamed(gt.named)))}
+				behind := sAnd(sEq(ex.muOf(gt, o, st), mu), sNot(ex.localObj(o)))
+				vc.assume(sImp(ex.curReach, sImp(behind, ev.evalBool(inv.Expr))))
+			}
+		}
+	}
+	ex.set(st, "SECW", "Bool", "false")
+	if rebind {
+		// old() now means: the state at this acquisition -- unless the mutex is local to this call (nobody else can
+		// hold it, nothing was havocked, and the operation is not a critical section of a shared object)
+		loc := ex.localObj(mu)
+		rebound := func() *State {
+			prev := st.old
+			if prev == nil {
+				prev = top.entry
+			}
+			ns := newState()
+			ns.rebound = true
+			keys := map[string]bool{}
+			for k := range st.m {
+				keys[k] = true
+			}
+			for k := range prev.m {
+				keys[k] = true
+			}
+			for _, k := range sortedKeys(keys) {
+				srt := vc.compSort[k]
+				if srt == "" {
+					continue
+				}
+				ns.m[k] = vc.define("old_"+k, srt, sIte(loc, ex.get(prev, k, srt), ex.get(st, k, srt)))
+			}
+			return ns
+		}
+		if spec := vc.spec; spec != nil && ex.parent == nil && spec.Opts["multi-section"] == "" {
+			// ghost initialisers and entry lemmas speak about "the state the operation starts from": redo them here
+			mk := func() *Eval {
+				e := top.newEval(st, st)
+				top.bindParams(e)
+				e.point = &progPoint{block: top.curBlock, idx: top.curIdx}
+				return e
+			}
+			for _, g := range spec.Ghosts {
+				if g.Init != nil {
+					ev := mk()
+					iv := ev.rval(ev.eval(g.Init))
+					srt := vc.vtSort(vc.ghostSort[g.Name])
+					ex.set(st, "G:"+g.Name, srt, sIte(loc, ex.get(st, "G:"+g.Name, srt), iv.T))
+				}
+			}
+			top.acqCount++
+			for k, lm := range spec.Lemmas {
+				ex.proveLemma(fmt.Sprintf("lemma[%d].section%d", k+1, top.acqCount), lm, mk, sAnd(ex.curReach, sNot(loc)))
+			}
+		}
+		st.old = rebound()
+	}
+}
+
+// beforeRelease: the invariant must hold again when the lock is given up.
+func (ex *Exec) beforeRelease(mu string, mode int, pos token.Pos) {
+	if !ex.vc.conc || ex.vc.scratch {
+		return
+	}
+	ex.concLeaveSection(mu, pos)
+}
+
+func (ex *Exec) concLeaveSection(mu string, pos token.Pos) {
+	vc := ex.vc
+	st := ex.curState
+	top := ex.topExec()
+	for _, tk := range sortedGuardKeys(vc.guardTable()) {
+		gt := vc.guardTable()[tk]
+		if tk != ex.curMuOwner {
+			continue
+		}
+		if inv := vc.w.Contracts.LockInvs[gt.key]; inv != nil {
+			os := ex.owners(gt)
+			if !gt.muIsPtr {
+				os = append(os, "(subOf "+mu+")")
+			}
+			for _, o := range os {
+				ev := top.newEval(st, top.entry)
+				ev.pkg = gt.named.Obj().Pkg()
+				ev.vars["self"] = TV{T: o, Ty: goVT(types.NewPointer(ev.instNamed(gt.named)))}
+				behind := sAnd(sEq(ex.muOf(gt, o, st), mu), sNot(ex.localObj(o)))
+				vc.oblige("lockinv.release["+gt.key+"]", "perm", pos, ex.curReach, sImp(behind, ev.evalBool(inv.Expr)),
+					"the lock invariant of "+gt.key+" holds when its mutex is released (the instance stays usable)")
+			}
+		}
+	}
+	ex.set(st, "WROTE", "Bool", sOr(ex.get(st, "WROTE", "Bool"), ex.get(st, "SECW", "Bool")))
+	ex.set(st, "SECW", "Bool", "false")
+}
+
+// escapeCheck: a reference handed back to the caller must not alias guarded memory.
+func (ex *Exec) escapeCheck(results []ssa.Value, pos token.Pos) {
+	if !ex.vc.conc || ex.vc.scratch || ex.vc.discover || ex.parent != nil {
+		return
+	}
+	for _, rv := range results {
+		v := ex.val(rv)
+		if v.T == "" {
+			continue
+		}
+		t := ex.typ(rv.Type())
+		for _, tk := range sortedGuardKeys(ex.vc.guardTable()) {
+			gt := ex.vc.guardTable()[tk]
+			var cs []string
+			for _, o := range ex.owners(gt) {
+				for fi := range gt.elems {
+					if _, ok := t.Underlying().(*types.Slice); ok && types.Identical(ex.instField(gt, fi), t) {
+						fk, fs, _ := ex.fieldKeyInst(gt, fi)
+						fv := sSel(ex.get(ex.curState, fk, "(Array Int "+fs+")"), o)
+						cs = append(cs, sOr(ex.localObj(o), sEq("(sarr "+v.T+")", "0"), sNot(sEq("(sarr "+v.T+")", "(sarr "+fv+")"))))
+					}
+				}
+				for fi := range gt.maps {
+					if _, ok := t.Underlying().(*types.Map); ok && types.Identical(ex.instField(gt, fi), t) {
+						fk, fs, _ := ex.fieldKeyInst(gt, fi)
+						fv := sSel(ex.get(ex.curState, fk, "(Array Int "+fs+")"), o)
+						cs = append(cs, sOr(ex.localObj(o), sEq(v.T, "0"), sNot(sEq(v.T, fv))))
+					}
+				}
+			}
+			if len(cs) > 0 {
+				ex.vc.oblige("escape.result["+gt.key+"]", "perm", pos, ex.curReach, sAnd(cs...),
+					"a slice or map returned to the caller does not alias memory guarded by the mutex of "+gt.key+" (reading it later would race with writers)")
+			}
+		}
+	}
+}
+
+// concCallEnter / concCallLeave: in concurrent mode a call to a function that takes an object's mutex itself is a
+// critical section of its own: the guarded state is havocked before it (the callee's contract then relates the
+// state at its acquisition to the state at its release), and counts as a writing section if the callee modifies.
+func (ex *Exec) concCallEnter(spec *FuncSpec, ev *Eval, pos token.Pos) {
+	if !ex.vc.conc || ex.vc.scratch || len(spec.Lock) == 0 {
+		return
+	}
+	for _, lc := range parseLockClauses(spec, ex.vc) {
+		if lc.mode == 0 {
+			ex.useHeld()
+			ex.curMuOwner = ev.fieldOwnerType(lc.expr)
+			ex.concEnterSection(ev.mutexAddr(lc.expr), pos, true)
+		}
+	}
+}
+
+func (ex *Exec) concCallLeave(spec *FuncSpec) {
+	if !ex.vc.conc || ex.vc.scratch || len(spec.Lock) == 0 {
+		return
+	}
+	for _, lc := range parseLockClauses(spec, ex.vc) {
+		if lc.mode == 0 {
+			st := ex.curState
+			wrote := "false"
+			for _, m := range spec.Modifies {
+				if strings.TrimSpace(m.Text) != "" && strings.TrimSpace(m.Text) != "nothing" {
+					wrote = "true"
+				}
+			}
+			ex.set(st, "WROTE", "Bool", sOr(ex.get(st, "WROTE", "Bool"), wrote))
+		}
+	}
+}
+
+// fieldOwnerType: for an expression x.f (possibly through embedded fields), the named struct type that declares f.
+func (ev *Eval) fieldOwnerType(e Expr) string {
+	fe, ok := e.(EField)
+	if !ok {
+		return ""
+	}
+	x := ev.eval(fe.X)
+	if x.Ty.Kind != "go" || x.Ty.Go == nil {
+		return ""
+	}
+	t := x.Ty.Go
+	_, path, _ := types.LookupFieldOrMethod(t, true, ev.pkgForLookup(t), fe.Name)
+	if len(path) == 0 {
+		return ""
+	}
+	cur := t
+	for _, fi := range path[:len(path)-1] {
+		if p, ok := cur.Underlying().(*types.Pointer); ok {
+			cur = p.Elem()
+		}
+		_, st := structOf(cur)
+		if st == nil {
+			return ""
+		}
+		cur = st.Field(fi).Type()
+	}
+	if p, ok := cur.Underlying().(*types.Pointer); ok {
+		cur = p.Elem()
+	}
+	if n, ok := types.Unalias(cur).(*types.Named); ok {
+		return namedKey(n)
+	}
+	return ""
+}
